@@ -182,3 +182,16 @@ TRUSTED = [
     "CBMC 6.11 + kissat/minisat; for the unbounded sift proofs goto-instrument DFCC + cvc5",
 ]
 NOT_COVERED = ["comparison functors that are not strict weak orders", "exceptions thrown by operator new"]
+
+NATIVE = [
+    dict(name="c11_native_random_sequences", driver="native/c11_native.cpp",
+         args=lambda tier, seed: ["search", seed, 20000 if tier == "quick" else 1000000], timeout=900),
+]
+
+
+def replay(ur, scratch, seed):
+    """Search the real ompl::BinaryHeap<int> for a failing operation sequence (white-box invariant + observable oracle)."""
+    from vf import native as N, cbmc as C
+    exe = N.build_driver("native/c11_native.cpp", scratch)
+    r = C.run_cmd([exe, "search", str(seed), "300000"], 600, env=N.run_env())
+    return dict(found=(r["rc"] == 1), driver="native/c11_native.cpp", args=["search", seed, 300000], output=r["out"][-2500:])
